@@ -5,6 +5,7 @@ task; nothing about /verif's machinery."""
 import json, sys, os
 kind, work = sys.argv[1], sys.argv[2]
 n = int(sys.argv[3]) if len(sys.argv) > 3 else (3 if kind == 'refactor' else 2)
+extra = open(sys.argv[4]).read().strip() if len(sys.argv) > 4 else ''
 os.makedirs(work, exist_ok=True)
 for line in open('/verif/properties.jsonl'):
     d = json.loads(line)
@@ -39,5 +40,5 @@ Verify yourself for each: the package imports, and the full test suite reports 9
 For each change write into {wt}/out/: m1.diff .. (produced with `git diff` against the unchanged HEAD; must apply with `git apply` from the worktree root), m1_demo.py .. - a self-contained script that exercises kawin's public API (small synthetic models/inputs; the thermodynamic database files used by the tests are under kawin/tests/ if you need them; keep the run under 2 minutes) and exits 0 when the property holds and 1 when it is violated: it must exit 0 on the unchanged tree and 1 with the change applied - and m1_meta.json ..: {{"property": "{pid}", "summary": "...what was changed and why it breaks the property...", "needs_to_manifest": "...which inputs/configurations expose it...", "files_touched": [...], "tests_passed_with_change": 97}}.
 Verify yourself for each: demo exits 0 unchanged / 1 changed (run as `cd {wt} && PYTHONPATH={wt} /venv/bin/python out/m1_demo.py`), and the full test suite reports 97 passed with the change applied. When finished restore the worktree (`git -C {wt} checkout -- .`), leaving only the untracked out/ directory. Reply with a short summary of the changes."""
     with open(f'{work}/prompt_{pid}.txt', 'w') as fh:
-        fh.write(head + '\n' + task)
+        fh.write(head + '\n' + task + ('\n\nAdditional guidance for this round: ' + extra if extra else ''))
 print('written to', work)
